@@ -34,6 +34,8 @@ import (
 
 type c15Op struct {
 	kind  string // bfd, sleep, send
+	in    uint16 // send: ingress interface
+	xover bool   // send: the packet changes segment at this router (in == link: U-turn)
 	link  uint16
 	state layers.BFDState
 	txMs  int
@@ -48,7 +50,7 @@ func (o c15Op) String() string {
 	case "sleep":
 		return fmt.Sprintf("sleep(%dms)", o.ms)
 	}
-	return fmt.Sprintf("send(egress %d)", o.link)
+	return fmt.Sprintf("send(ingress %d, egress %d, segment change %v)", o.in, o.link, o.xover)
 }
 
 func bfdRFC(local, recv layers.BFDState) layers.BFDState {
@@ -90,6 +92,33 @@ func bfdPacket(external bool, b *layers.BFD) ([]byte, error) {
 	return append([]byte{}, buf.Bytes()...), nil
 }
 
+// xoverPacket forges a packet that arrives through in at the end of a segment travelled against
+// construction direction and continues on a second segment through out (in == out: U-turn).
+func xoverPacket(key []byte, in, out uint16, now time.Time) ([]byte, error) {
+	ts := uint32(now.Unix() - 10)
+	h0 := path.HopField{ExpTime: 63, ConsIngress: 7, ConsEgress: 0}
+	h1 := path.HopField{ExpTime: 63, ConsIngress: 0, ConsEgress: in}
+	h2 := path.HopField{ExpTime: 63, ConsIngress: 0, ConsEgress: out}
+	h3 := path.HopField{ExpTime: 63, ConsIngress: 8, ConsEgress: 0}
+	const b1, b2 = 0x1357, 0x2468
+	h1.Mac = ref.HopMAC(key, b1, ts, h1.ExpTime, 0, in)
+	h2.Mac = ref.HopMAC(key, b2, ts, h2.ExpTime, 0, out)
+	s1 := uint16(h1.Mac[0])<<8 | uint16(h1.Mac[1])
+	infos := []path.InfoField{{ConsDir: false, SegID: b1 ^ s1, Timestamp: ts}, {ConsDir: true, SegID: b2, Timestamp: ts}}
+	dec := &scion.Decoded{Base: scion.Base{PathMeta: scion.MetaHdr{CurrHF: 1, CurrINF: 0, SegLen: [3]uint8{2, 2}}, NumINF: 2, NumHops: 4},
+		InfoFields: infos, HopFields: []path.HopField{h0, h1, h2, h3}}
+	s := &slayers.SCION{NextHdr: slayers.L4UDP, PathType: scion.PathType, Path: dec, SrcIA: labNeighbor(900), DstIA: labNeighbor(901)}
+	_ = s.SetSrcAddr(addr.MustParseHost("10.1.1.1"))
+	_ = s.SetDstAddr(addr.MustParseHost("10.2.2.2"))
+	u := &slayers.UDP{SrcPort: 40001, DstPort: 40002}
+	u.SetNetworkLayerForChecksum(s)
+	buf := gopacket.NewSerializeBuffer()
+	if err := gopacket.SerializeLayers(buf, gopacket.SerializeOptions{FixLengths: true, ComputeChecksums: true}, s, u, gopacket.Payload([]byte("data"))); err != nil {
+		return nil, err
+	}
+	return append([]byte{}, buf.Bytes()...), nil
+}
+
 // transitPacket forges a packet in the middle of a 3-hop segment entering through in and leaving
 // through out.
 func transitPacket(key []byte, in, out uint16, now time.Time) ([]byte, error) {
@@ -119,26 +148,36 @@ func TestC15(t *testing.T) {
 		"Non-trivial: history in which a BFD link went up and down again with packets sent in each phase.")
 	defer rec.Flush(t)
 	rec.Assume("received AdminDown is not generated here (its handling is the listed C16 finding)", "detection times carry a sub-millisecond fraction so that no action lands on a deadline")
-	rec.Require("ext_down_scmp", "ext_up_forwarded", "sib_down_scmp", "sib_up_forwarded", "nobfd_forwarded", "up_then_down_again")
+	rec.Require("ext_down_scmp", "ext_up_forwarded", "sib_down_scmp", "sib_up_forwarded", "nobfd_forwarded", "up_then_down_again", "segment_change", "u_turn")
 	rapid.Check(t, func(rt *rapid.T) {
 		n := rapid.IntRange(1, 40).Draw(rt, "n")
 		var ops []c15Op
 		for i := 0; i < n; i++ {
 			switch k := rapid.IntRange(0, 9).Draw(rt, "kind"); {
 			case k < 4:
-				ops = append(ops, c15Op{kind: "bfd", link: rapid.SampledFrom([]uint16{11, 13}).Draw(rt, "bfdLink"), state: layers.BFDState(rapid.IntRange(1, 3).Draw(rt, "state")),
+				ops = append(ops, c15Op{kind: "bfd", link: rapid.SampledFrom([]uint16{11, 13, 31}).Draw(rt, "bfdLink"), state: layers.BFDState(rapid.IntRange(1, 3).Draw(rt, "state")),
 					txMs: rapid.IntRange(1, 400).Draw(rt, "txms"), mult: rapid.IntRange(1, 3).Draw(rt, "mult")})
 			case k < 6:
 				ops = append(ops, c15Op{kind: "sleep", ms: rapid.IntRange(1, 1500).Draw(rt, "ms")})
 			default:
-				ops = append(ops, c15Op{kind: "send", link: rapid.SampledFrom([]uint16{11, 11, 13, 13, 12, 14}).Draw(rt, "egress")})
+				eg := rapid.SampledFrom([]uint16{11, 11, 13, 13, 12, 14, 31, 31}).Draw(rt, "egress")
+				// ingress: within one segment, or at a segment change (also back out of the interface
+				// the packet came in through)
+				type via struct {
+					in    uint16
+					xover bool
+				}
+				opts := map[uint16][]via{11: {{12, false}, {31, true}, {32, true}}, 12: {{11, false}}, 13: {{12, false}, {31, true}}, 14: {{12, false}},
+					31: {{21, false}, {31, true}, {32, true}, {11, true}}}[eg]
+				v := opts[rapid.IntRange(0, len(opts)-1).Draw(rt, "ingress")]
+				ops = append(ops, c15Op{kind: "send", link: eg, in: v.in, xover: v.xover})
 			}
 		}
 		var fail string
 		labels := map[string]bool{}
 		synctest.Test(t, func(t *testing.T) {
 			time.Sleep(30 * 365 * 24 * time.Hour)
-			l := newLab(func(f string, a ...any) { fail = fmt.Sprintf(f, a...) }, labCfg{master: []byte("0123456789abcdef"), bfd: map[uint16]bool{11: true, 13: true}})
+			l := newLab(func(f string, a ...any) { fail = fmt.Sprintf(f, a...) }, labCfg{master: []byte("0123456789abcdef"), bfd: map[uint16]bool{11: true, 13: true, 31: true}})
 			if fail != "" {
 				return
 			}
@@ -153,7 +192,7 @@ func TestC15(t *testing.T) {
 			}
 			sessions := map[uint16]*sess{}
 			var done []chan struct{}
-			for _, id := range []uint16{11, 13} {
+			for _, id := range []uint16{11, 13, 31} {
 				bs := l.dp.Interface(id).BFDSession()
 				if bs == nil {
 					fail = fmt.Sprintf("link %d has no BFD session although BFD is enabled", id)
@@ -196,7 +235,7 @@ func TestC15(t *testing.T) {
 					s := sessions[op.link]
 					b := &layers.BFD{Version: 1, State: op.state, DetectMultiplier: layers.BFDDetectMultiplier(op.mult), MyDiscriminator: 99,
 						YourDiscriminator: s.s.LocalDiscriminator, DesiredMinTxInterval: layers.BFDTimeInterval(op.txMs*1000 + 250), RequiredMinRxInterval: 100000}
-					raw, err := bfdPacket(op.link == 11, b)
+					raw, err := bfdPacket(op.link != 13, b)
 					if err != nil {
 						fail = "harness: " + err.Error()
 						return
@@ -223,11 +262,18 @@ func TestC15(t *testing.T) {
 					tick()
 				case "send":
 					tick()
-					in := uint16(12)
-					if op.link == 12 {
-						in = 11
+					in := op.in
+					var raw []byte
+					var err error
+					if op.xover {
+						raw, err = xoverPacket(l.key, in, op.link, time.Now())
+						labels["segment_change"] = true
+						if in == op.link {
+							labels["u_turn"] = true
+						}
+					} else {
+						raw, err = transitPacket(l.key, in, op.link, time.Now())
 					}
-					raw, err := transitPacket(l.key, in, op.link, time.Now())
 					if err != nil {
 						fail = "harness: " + err.Error()
 						return
@@ -244,7 +290,7 @@ func TestC15(t *testing.T) {
 						switch {
 						case s == nil:
 							labels["nobfd_forwarded"] = true
-						case op.link == 11:
+						case op.link != 13:
 							labels["ext_up_forwarded"] = true
 						default:
 							labels["sib_up_forwarded"] = true
@@ -267,10 +313,10 @@ func TestC15(t *testing.T) {
 						fail = fmt.Sprintf("%s: %v", desc, err)
 						return
 					}
-					if op.link == 11 {
+					if op.link != 13 {
 						var m slayers.SCMPExternalInterfaceDown
-						if si.typ != slayers.SCMPTypeExternalInterfaceDown || m.DecodeFromBytes(si.body, gopacket.NilDecodeFeedback) != nil || m.IA != labLocal || m.IfID != 11 {
-							fail = fmt.Sprintf("%s: answered with SCMP type %d (IA %s, interface %d), expected external-interface-down for %s#11", desc, si.typ, m.IA, m.IfID, labLocal)
+						if si.typ != slayers.SCMPTypeExternalInterfaceDown || m.DecodeFromBytes(si.body, gopacket.NilDecodeFeedback) != nil || m.IA != labLocal || m.IfID != uint64(op.link) {
+							fail = fmt.Sprintf("%s: answered with SCMP type %d (IA %s, interface %d), expected external-interface-down for %s#%d", desc, si.typ, m.IA, m.IfID, labLocal, op.link)
 							return
 						}
 						labels["ext_down_scmp"] = true
